@@ -138,7 +138,19 @@ def write_pkg(d, case, order=None):
             aps = np.array(case['aps'][j], dtype=float) * u.au
         c = ConvolvedFluxes(wavelength=w * u.micron, model_names=names, apertures=aps, flux=flux * u.mJy, error=flux * 0.0 * u.mJy)
         c.write(os.path.join(d, 'convolved', 'F%d.fits' % j))
-    write_conf(d, case['mode'] == '3d', case.get('logd_step', 0.02))
+    if case.get('fmt') == 'v2':
+        # version-2 package: Models.read also wants the flux cube (only its model list is used when every filter is a named one)
+        from sedfitter.sed import SEDCube
+        cube = SEDCube()
+        cube.names = names
+        cube.distance = 1.0 * u.kpc
+        cube.wav = np.array([2.0, 1.0]) * u.micron
+        nap = 1 if case['mode'] == '2d' else len(case['aps'][0])
+        cube.apertures = None if case['mode'] == '2d' else np.array(case['aps'][0], dtype=float) * u.au
+        cube.val = np.ones((nm, nap, 2)) * u.mJy
+        cube.unc = np.zeros((nm, nap, 2)) * u.mJy
+        cube.write(os.path.join(d, 'flux.fits'))
+    write_conf(d, case['mode'] == '3d', case.get('logd_step', 0.02), version=2 if case.get('fmt') == 'v2' else None)
 
 
 def make_extinction(ext):
@@ -170,6 +182,8 @@ def make_fitter(d, case, bands=None, **kw):
     bands = list(range(nb)) if bands is None else bands
     theta = [case.get('theta', [3.0] * nb)[j] for j in bands]
     dr = case.get('drange', [1.0, 2.0])
+    if case.get('fmt') == 'v2':
+        kw.setdefault('use_memmap', False)      # float64 model fluxes: the comparison tolerances assume them (the float32 memory map is exercised by C08 and by rr_mm below)
     return Fitter(['F%d' % j for j in bands], np.array(theta) * u.arcsec, d, extinction_law=make_extinction(case['ext']),
                   av_range=tuple(case['av_range']), distance_range=np.array(dr) * u.kpc, **kw)
 
@@ -205,9 +219,16 @@ def impl_fit(case):
                 out['rr'] = info_out(frr.fit(make_source(case['src'])), frr)
                 import numpy as np
                 ext = frr.models.extended
-                out['rr_ext'] = np.asarray(ext).astype(int).tolist() if type(ext) == np.ndarray else None      # [model][distance][band]; None: the step is skipped
+                out['rr_ext'] = np.asarray(ext).astype(int).tolist() if isinstance(ext, np.ndarray) else None      # [model][distance][band] (plain array or memmap)
             except Exception as e:
                 out['rr'] = {'exc': '%s: %s' % (type(e).__name__, e)}
+            if case.get('fmt') == 'v2':         # and once more the way Fitter does it by default: memory-mapped arrays
+                try:
+                    fmm = make_fitter(d, case, remove_resolved=True, use_memmap=True)
+                    out['rr_mm'] = info_out(fmm.fit(make_source(case['src'])), fmm)
+                    out['rr_mm_ext'] = np.asarray(fmm.models.extended).astype(int).tolist()
+                except Exception as e:
+                    out['rr_mm'] = {'exc': '%s: %s' % (type(e).__name__, e)}
         return out
 
 
